@@ -26,6 +26,8 @@ type iterParams struct {
 	HaltAt  int    `json:"halt_at"` // step from which the halter may call Halt, -1 = no halter
 	Timer   int    `json:"timer"`   // step from which the hard-limit timer may fire
 	Horizon int    `json:"horizon"`
+	Slow    int    `json:"slow,omitempty"`  // creation index of a goroutine that is held back (1 search, 2 quit-cancel, 3 consumer)
+	Until   int    `json:"until,omitempty"` // ... until this many steps after the halt instant
 }
 
 func iterRoot() search.Search {
@@ -88,7 +90,11 @@ func buildIter(params json.RawMessage) explore.Scenario {
 	if p.Horizon == 0 {
 		p.Horizon = 700
 	}
-	return explore.Scenario{Horizon: p.Horizon, EnvSince: p.Time, TimerRelease: p.Timer, Build: func() (func(), func(int), func(*vs.Sched) explore.Outcome) {
+	delayUntil := p.Until
+	if p.HaltAt > 0 {
+		delayUntil += p.HaltAt
+	}
+	return explore.Scenario{Horizon: p.Horizon, EnvSince: p.Time, TimerRelease: p.Timer, DelayThread: p.Slow, DelayUntil: delayUntil, Build: func() (func(), func(int), func(*vs.Sched) explore.Outcome) {
 		var got []search.PV
 		var halted *search.PV
 		seenAtHalt, haltCalled := 0, false
@@ -239,7 +245,7 @@ func init() {
 	Builders["iter"] = buildIter
 	Defs["C15"] = &Def{
 		ID:   "C15",
-		Rule: "real searchctl.Iterative.Launch on small roots (K v K, fortress, checkmated, stalemated, mate-in-1 net) x depth limit {none,1,2,3} x table {off,on} x time control {none, given}; threads: the iterative-deepening goroutine, its quit-cancel goroutine, a consumer, a halter whose Halt becomes enabled at scheduler step k for a grid of k over the whole run (halt instant enumerated), the hard-limit timer (release step enumerated) and, with a time control, every time.Since answered 'short' or 'longer than any limit' (environment deviation); all schedules within the deviation bound. Oracle: reported depths strictly increasing; every reported and every Halt-returned (score, PV with table off) equals a direct fixed-depth search; ends by itself exactly at the depth limit or at the first depth with a forced mate within the depth, never earlier, never without a reason; Halt returns a completed iteration >= 1 at least as deep as everything reported before it was requested. Plus the complete grid of TimeControl.Limits (sequential). distinct_nontrivial = distinct (depth stream, halt result) classes",
+		Rule: "real searchctl.Iterative.Launch on small roots (K v K, fortress, checkmated, stalemated, mate-in-1 net) x depth limit {none,1,2,3} x table {off,on} x time control {none, given}; threads: the iterative-deepening goroutine, its quit-cancel goroutine, a consumer, a halter whose Halt becomes enabled at scheduler step k for a grid of k over the whole run (halt instant enumerated), the hard-limit timer (release step enumerated), the search / quit-cancel / consumer goroutine in turn held back for 60 steps after the halt instant (slow-thread dimension) and, with a time control, every time.Since answered 'short' or 'longer than any limit' (environment deviation); all schedules within the deviation bound. Oracle: reported depths strictly increasing; every reported and every Halt-returned (score, PV with table off) equals a direct fixed-depth search; ends by itself exactly at the depth limit or at the first depth with a forced mate within the depth, never earlier, never without a reason; Halt returns a completed iteration >= 1 at least as deep as everything reported before it was requested. Plus the complete grid of TimeControl.Limits (sequential). distinct_nontrivial = distinct (depth stream, halt result) classes",
 		Gen: func(tier string) []explore.Scenario {
 			roots := []string{kP1, kFortress, kMated, kStale, "7k/8/5K2/6Q1/8/8/8/8 b - - 0 1"}
 			var out []explore.Scenario
@@ -278,6 +284,12 @@ func init() {
 								q := base
 								q.HaltAt = k
 								out = append(out, iterScenario(q))
+								if !table && !tc && (tier == "thorough" || k%(8*stride) == 0) {
+									for slow := 1; slow <= 3; slow++ {
+										q.Slow, q.Until = slow, 60
+										out = append(out, iterScenario(q))
+									}
+								}
 							}
 						}
 					}
